@@ -263,6 +263,12 @@ def tile_array(mode, salt, kind, holes):
         return a
     if kind == "infonly":
         kind = "defined"
+    if kind == "black":
+        # pure black is a colour like any other: defined (opaque) pixels
+        a = make_array(mode, 256, 256, salt, [])
+        if mode in ("RGB", "RGBA"):
+            a[40 + salt : 90 + salt, 10:200, :3] = 0
+        return a
     if kind == "masked":
         if mode == "RGB":
             kind = "defined"
@@ -312,6 +318,20 @@ def exec_history(case):
         else:
             pio = PyramidIO(d, default_format=fmt, scheme=case["scheme"])
             fkw = {}
+
+        if case.get("loader_before"):
+            # earlier in the same process an input image was loaded with non-default loader options (as the command-line
+            # tools do for --black-to-transparent); tiles are unrelated to that
+            import argparse
+            from toasty.image import ImageLoader
+            from PIL import Image as PILImage
+
+            src_png = os.path.join(d, "input-image.png")
+            PILImage.fromarray(make_array("RGB", 8, 8, 3, [])).save(src_png, format="PNG")
+            with toasty_call("read", "loading an unrelated input image with --black-to-transparent"):
+                ld = ImageLoader.create_from_args(argparse.Namespace(black_to_transparent=True, colorspace_processing=case["loader_before"], psd_single_layer=None, crop=None))
+                ld.load_path(src_png)
+            os.unlink(src_png)
 
         def path_of(p):
             return pio.tile_path(Pos(*p), makedirs=False, **fkw)
@@ -427,6 +447,10 @@ def exec_history(case):
     cls = [fmt, mode, case["scheme"]]
     if case.get("explicit_format"):
         cls.append("explicit-format!=default")
+    if case.get("loader_before"):
+        cls.append("after-a-loader-with-options")
+    if any(o.get("content") == "black" for o in case["ops"]):
+        cls.append("pure-black-pixels")
     kinds = set(o["op"] for o in case["ops"])
     cls += sorted("op:" + k for k in kinds)
     if seen_defined_then_masked:
@@ -444,7 +468,7 @@ def strat_history(draw, tier):
         op = {"op": kind, "pos": draw(st.integers(0, 3))}
         if kind in ("write", "write_buffer", "update"):
             op["salt"] = draw(st.integers(0, 30))
-            op["content"] = draw(st.sampled_from(["defined", "partial", "masked", "masked", "infonly"]))
+            op["content"] = draw(st.sampled_from(["defined", "partial", "masked", "masked", "infonly"] + (["black", "black"] if mode in ("RGB", "RGBA") else [])))
             op["holes"] = draw(hole_lists())
             # scale the holes up to tile size
             op["holes"] = [[h[0] * 7, h[1] * 7, h[2] * 7, h[3] * 7, h[4]] for h in op["holes"]]
@@ -455,7 +479,10 @@ def strat_history(draw, tier):
         if kind == "read":
             op["default"] = draw(st.sampled_from(["none", "masked"]))
         ops.append(op)
-    return {"format": fmt, "mode": mode, "scheme": draw(st.sampled_from(["L/Y/YX", "LXY"])), "ops": ops, "explicit_format": draw(st.sampled_from([False, False, True]))}
+    case = {"format": fmt, "mode": mode, "scheme": draw(st.sampled_from(["L/Y/YX", "LXY"])), "ops": ops, "explicit_format": draw(st.sampled_from([False, False, True]))}
+    if draw(st.integers(0, 3)) == 0:
+        case["loader_before"] = draw(st.sampled_from(["srgb", "none"]))
+    return case
 
 
 # ------------------------------------------------------------------ histories on ONE image object
